@@ -29,7 +29,24 @@ fn parse(input: &[u8], cfg_mask: u32) -> Option<(Module, InputIds)> {
 
 fn apply_edits(m: &mut Module, ids: &InputIds, input: &[u8], rng: &mut Rng, log: &mut Vec<String>) {
     let n = rng.range(1, 8);
-    let unref = wv_oracle::decode::decode(input).ok().map(|d| wv_oracle::reach::referenced(&d));
+    let decoded = wv_oracle::decode::decode(input).ok();
+    let unref = decoded.as_ref().map(|d| wv_oracle::reach::referenced(d));
+    let to_vt = |t: &wv_gen::mspec::VT| -> ValType {
+        use wv_gen::mspec::VT;
+        match t {
+            VT::I32 => ValType::I32,
+            VT::I64 => ValType::I64,
+            VT::F32 => ValType::F32,
+            VT::F64 => ValType::F64,
+            VT::V128 => ValType::V128,
+            VT::FuncRef => ValType::Ref(RefType::Funcref),
+            VT::ExternRef => ValType::Ref(RefType::Externref),
+        }
+    };
+    let in_types: Vec<(Vec<ValType>, Vec<ValType>)> = decoded
+        .as_ref()
+        .map(|d| d.types.iter().map(|s| (s.params.iter().map(to_vt).collect(), s.results.iter().map(to_vt).collect())).collect())
+        .unwrap_or_default();
     let mut deleted_funcs: Vec<FunctionId> = Vec::new();
     for step in 0..n {
         match rng.below(16) {
@@ -63,6 +80,41 @@ fn apply_edits(m: &mut Module, ids: &InputIds, input: &[u8], rng: &mut Rng, log:
                     m.exports.delete(*rng.pick(&es));
                     log.push("delete-export".into());
                 }
+            }
+            2 if in_types.len() > 0 => {
+                // new function whose signature is one of the input's types (possibly one that a pass removed
+                // as unused a moment ago): results are zero values
+                let (ps, rs) = in_types[rng.usize(in_types.len())].clone();
+                let args: Vec<LocalId> = ps.iter().map(|t| m.locals.add(*t)).collect();
+                let mut fb = FunctionBuilder::new(&mut m.types, &ps, &rs);
+                {
+                    let mut b = fb.func_body();
+                    for r in &rs {
+                        match r {
+                            ValType::I32 => {
+                                b.i32_const(0);
+                            }
+                            ValType::I64 => {
+                                b.i64_const(0);
+                            }
+                            ValType::F32 => {
+                                b.f32_const(0.0);
+                            }
+                            ValType::F64 => {
+                                b.f64_const(0.0);
+                            }
+                            ValType::V128 => {
+                                b.const_(Value::V128(0));
+                            }
+                            ValType::Ref(t) => {
+                                b.ref_null(*t);
+                            }
+                        }
+                    }
+                }
+                let f = fb.finish(args, &mut m.funcs);
+                m.exports.add(&format!("wv_sig_fn_{}", step), f);
+                log.push("add-function-with-input-signature".into());
             }
             2 | 3 => {
                 // new function through the builder; calls an existing ()->() function if there is one
@@ -193,8 +245,9 @@ fn apply_edits(m: &mut Module, ids: &InputIds, input: &[u8], rng: &mut Rng, log:
                             let c: Vec<usize> = (0..ids.funcs.len()).filter(|i| !k.funcs.get(*i).copied().unwrap_or(true) && !deleted_funcs.contains(&ids.funcs[*i])).collect();
                             if !c.is_empty() {
                                 let id = ids.funcs[*rng.pick(&c)];
-                                // an earlier edit may have started to use it
-                                let used_now = m.exports.iter().any(|e| matches!(e.item, ExportItem::Function(f) if f == id))
+                                // a pass may have removed it already; an earlier edit may have started to use it
+                                let live = m.funcs.iter().any(|f| f.id() == id);
+                                let used_now = !live || m.exports.iter().any(|e| matches!(e.item, ExportItem::Function(f) if f == id))
                                     || m.start == Some(id)
                                     || m.elements.iter().any(|e| matches!(&e.items, ElementItems::Functions(v) if v.contains(&id)))
                                     || m.funcs.iter_local().any(|(_, f)| calls(f, id));
@@ -286,6 +339,14 @@ pub fn run(input: &[u8], scn: &str, rec: &mut Rec) {
     rec.push_s("parse", "ok");
     let mut rng = Rng::new(seed ^ wv_gen::rng::fnv64(input));
     let mut log = Vec::new();
+    if scn.contains("gcfirst") {
+        // a pass runs first, the edits work on what it left
+        if let Err(p) = guarded(|| passes::gc::run(&mut m)) {
+            rec.push_s("panic.gcfirst", &p);
+            return;
+        }
+        log.push("gc-first".into());
+    }
     if let Err(p) = guarded(|| apply_edits(&mut m, &ids, input, &mut rng, &mut log)) {
         rec.push_s("panic.edit", &format!("{} (after edits: {})", p, log.join(",")));
         rec.push_s("edits", &log.join(","));
